@@ -56,7 +56,7 @@ func (c corsCfg) option() mux.Option {
 func corsConfigs() []corsCfg {
 	var out []corsCfg
 	for _, o := range [][]string{nil, {"*"}, {"https://a"}, {"https://a", "https://b"}, {"https://a", "*"}} {
-		for _, h := range [][]string{nil, {"*"}, {"Content-Type"}, {"Content-Type", "X-Tok"}} {
+		for _, h := range [][]string{nil, {"*"}, {"Content-Type"}, {"Content-Type", "X-Tok"}, {"*", "X-Tok"}, {"Content-Type", "*"}} {
 			for _, e := range [][]string{nil, {"X-E"}} {
 				for _, m := range []int{0, -1, 600} {
 					for _, c := range []bool{false, true} {
@@ -165,10 +165,10 @@ func corsRequests(hostile bool, c corsCfg) []corsReq {
 		addH(j[k-1 : k+2]) // e.g. "e,X": spans two names
 		addH(named[len(named)-1] + "," + named[0])
 	}
-	for _, m := range []string{"GET", "HEAD", "POST", "PUT", "OPTIONS", "TRACE"} {
+	for _, m := range []string{"GET", "HEAD", "POST", "PUT", "OPTIONS", "TRACE", "", "BOGUS"} { // "" and BOGUS: served by no route, always 405/404
 		for _, p := range []string{"/r", "/w", "/none", "*"} {
 			for _, o := range origins {
-				for _, am := range []string{"", "GET", "POST", "PUT", "get"} {
+				for _, am := range []string{"", "GET", "POST", "PUT", "get", "HEAD", "OPTIONS", "DELETE"} {
 					for _, ah := range acrhs {
 						out = append(out, corsReq{Method: m, Path: p, Origin: o.v, HasOrigin: o.has, ACRM: am, ACRH: ah.v, HasACRH: ah.has})
 					}
